@@ -133,7 +133,7 @@ static SEQ: AtomicU64 = AtomicU64::new(0);
 fn scenarios() -> Vec<Vec<Op>> {
     let s = |x: &str| x.to_string();
     vec![
-        vec![Op::MkdirM(s("@/d/sub"), 0o750), Op::WriteAll(s("@/d/f"), b"x\ny".to_vec()), Op::Symlink(s("@/lf"), s("@/d/f")), Op::Symlink(s("@/ld"), s("@/d")), Op::MkfileM(s("@/exe"), 0o755)],
+        vec![Op::MkdirM(s("@/d/sub"), 0o750), Op::WriteAll(s("@/d/f"), b"x\ny".to_vec()), Op::Symlink(s("@/lf"), s("@/d/f")), Op::Symlink(s("@/ld"), s("@/d")), Op::Symlink(s("@/ls"), s("@/d/sub")), Op::MkfileM(s("@/exe"), 0o755)],
         vec![Op::MkdirP(s("@/a/b/c")), Op::WriteAll(s("@/a/b/c/deep"), b"deep".to_vec()), Op::WriteAll(s("@/a/top"), b"t".to_vec())],
         vec![Op::MkdirP(s("@/é/日本")), Op::WriteAll(s("@/é/d e"), b"sp".to_vec()), Op::Symlink(s("@/é/l"), s("@/é/d e"))],
     ]
@@ -171,6 +171,12 @@ fn spellings(base: &str, p: &str) -> Vec<(String, &'static str)> {
         (format!("{}/$VB/{}", parent(base), rel), "absolute-with-variable-inside"),
         (format!("{}/x${{V2}}/../${{VB}}/{}", parent(base), rel), "absolute-with-braced-variables-inside"),
         (format!("{}/.", rel), "trailing-dot"),
+        // ".." after a symlink to a deeper directory (scenario 0 has @/ls -> @/d/sub): the resolution is lexical
+        {
+            let rroot = format!("{}/@R", base);
+            let below = p.strip_prefix(&rroot).unwrap_or("");
+            (format!("{}/ls/..{}", rroot, below), "through-a-link-and-back")
+        },
     ]
 }
 
@@ -315,7 +321,7 @@ fn op_templates() -> Vec<Op> {
 }
 
 pub fn run(c: &Ctx) {
-    c.set_rule("(a) abs(): every string over {'/','.','~','$',':','a','é'} up to length 5 (quick) / 6 (thorough) x cwd in {/, /a, /a/b, /a/b/c} and cwd entered through a symlink to a directory ({/a/b, /l} -> /zz/t/u) on Memfs with HOME=<sandbox>, V1 set, V2 empty, plus seeded random strings <=40 symbols with protocols in mixed case, braces and multi-byte names; the same strings on Stdfs vs a Memfs whose cwd equals the process cwd (a deep tmpfs directory), and 12 (quick) / 60 (thorough) environments (HOME unset/empty/'/h'/'/h/e//'/'rel', two variables) x cwd {/, /dev, sandbox} in child processes for both backends; Stdfs::abs of 9 absolute / '~' / '$V' / protocol spellings from a child whose cwd directory was deleted ('no IO'). Oracle: reference abs (trim protocol -> expand -> Go-Clean -> lexical join onto cwd): value, absolute+clean form, idempotence, independence from filesystem content, error iff empty / invalid expansion / '..' above root (kind class), backends equal. (b) spelling independence: 3 scenarios x every path x every call form (all single-path forms, copy/move both argument positions, symlink link position, copy_b, chmod_b / chown_b executed after a later set_cwd) x 14 spellings (absolute with a variable inside, relative, './', doubled separators + trailing '/', detour through a missing name, '~/', '$V1/', '${V1}/./', 'file://', 'HTTPS://', '../<cwd>/', trailing '/.'): the call with the respelled path and the call with abs(path) run on two fresh replicas must give the same result and the same tree; on Memfs and on a tmpfs Stdfs sandbox. Non-trivial = (a) string with >=2 distinct special characters, (b) spelling != canonical; distinct by case.");
+    c.set_rule("(a) abs(): every string over {'/','.','~','$',':','a','é'} up to length 5 (quick) / 6 (thorough) x cwd in {/, /a, /a/b, /a/b/c} and cwd entered through a symlink to a directory ({/a/b, /l} -> /zz/t/u) on Memfs with HOME=<sandbox>, V1 set, V2 empty, plus seeded random strings <=40 symbols with protocols in mixed case, braces and multi-byte names; the same strings on Stdfs vs a Memfs whose cwd equals the process cwd (a deep tmpfs directory), and 12 (quick) / 60 (thorough) environments (HOME unset/empty/'/h'/'/h/e//'/'rel', two variables) x cwd {/, /dev, sandbox} in child processes for both backends; Stdfs::abs of 9 absolute / '~' / '$V' / protocol spellings from a child whose cwd directory was deleted ('no IO'). Oracle: reference abs (trim protocol -> expand -> Go-Clean -> lexical join onto cwd): value, absolute+clean form, idempotence, independence from filesystem content, error iff empty / invalid expansion / '..' above root (kind class), backends equal. (b) spelling independence: 3 scenarios x every path x every call form (all single-path forms, copy/move both argument positions, symlink link position, copy_b, chmod_b / chown_b executed after a later set_cwd) x 15 spellings ('..' after a symlink to a deeper directory, absolute with a variable inside, relative, './', doubled separators + trailing '/', detour through a missing name, '~/', '$V1/', '${V1}/./', 'file://', 'HTTPS://', '../<cwd>/', trailing '/.'): the call with the respelled path and the call with abs(path) run on two fresh replicas must give the same result and the same tree; on Memfs and on a tmpfs Stdfs sandbox. Non-trivial = (a) string with >=2 distinct special characters, (b) spelling != canonical; distinct by case.");
     c.assume("'does no IO' is checked behaviourally (same answer before/after the path exists); symlink's second argument is documented as relative to the link, it is not respelled");
     // one deep sandbox directory is cwd, HOME and $V1 for the whole run
     let base = crate::sandbox::dir("c05");
@@ -325,6 +331,8 @@ pub fn run(c: &Ctx) {
     std::env::set_var("V2", "");
     std::env::set_var("VB", crate::refpath::base(&base_s));
     std::env::remove_var("UNSET");
+    // bystander: the shell's idea of the working directory is not the working directory
+    std::env::set_var("PWD", "/rvh/decoy-pwd");
     if std::env::set_current_dir(&base).is_err() {
         c.inconclusive("cannot chdir into the sandbox");
         return;
@@ -504,7 +512,7 @@ pub fn run(c: &Ctx) {
     }
     // (b) spelling independence
     let ops = op_templates();
-    let n_sp = 14;
+    let n_sp = 15;
     let mut cases: Vec<(SpellCase, String, String)> = vec![];
     for (si, _) in scenarios().iter().enumerate() {
         let paths = scenario_paths(si);
